@@ -1,1 +1,711 @@
-From V Require Export C04_Model.
+(* C04_Proofs.v — the outcome map after ANY history shows, per case, what the history
+   says is on record; report() classifies, counts and names accordingly; the verdict is
+   the truth table of C04_Spec.  Induction over histories and over the outcome map. *)
+From Coq Require Import Lia Permutation.
+From V Require Import C04_Spec.
+Open Scope nat_scope.
+
+(* ====================================================================== *)
+(* association lists                                                       *)
+(* ====================================================================== *)
+Definition keys (l : list (name * outcome)) : list name := map fst l.
+
+Lemma beq_sym a b : bytes_eqb a b = bytes_eqb b a.
+Proof. destruct (bytes_eqb_spec a b), (bytes_eqb_spec b a); congruence. Qed.
+
+Lemma lookup_put l n o m :
+  lookup (put l n o) m = if bytes_eqb m n then Some o else lookup l m.
+Proof.
+  induction l as [|[k o'] l IH]; simpl.
+  - reflexivity.
+  - destruct (bytes_eqb_spec n k) as [->|Hnk]; simpl.
+    + destruct (bytes_eqb_spec m k); reflexivity.
+    + rewrite IH. destruct (bytes_eqb_spec m k) as [->|Hmk]; [|reflexivity].
+      destruct (bytes_eqb_spec k n); [congruence|reflexivity].
+Qed.
+
+Lemma in_keys_put l n o m : In m (keys (put l n o)) <-> m = n \/ In m (keys l).
+Proof.
+  induction l as [|[k o'] l IH]; simpl.
+  - intuition.
+  - destruct (bytes_eqb_spec n k) as [->|Hnk]; simpl.
+    + intuition.
+    + rewrite IH. intuition.
+Qed.
+
+Lemma nodup_keys_put l n o : NoDup (keys l) -> NoDup (keys (put l n o)).
+Proof.
+  induction l as [|[k o'] l IH]; simpl; intros H.
+  - constructor; [intros []|constructor].
+  - inversion H as [|? ? Hk Hl]; subst.
+    destruct (bytes_eqb_spec n k) as [->|Hnk]; simpl.
+    + constructor; assumption.
+    + constructor; [|apply IH; exact Hl].
+      change (~ In k (keys (put l n o))). rewrite in_keys_put. intros [E|E]; [congruence|tauto].
+Qed.
+
+Lemma lookup_in_keys l n : lookup l n <> None <-> In n (keys l).
+Proof.
+  induction l as [|[k o] l IH]; simpl.
+  - intuition.
+  - destruct (bytes_eqb_spec n k) as [->|Hnk].
+    + split; [auto|discriminate].
+    + rewrite IH. split; [auto|]. intros [E|E]; [congruence|exact E].
+Qed.
+
+Lemma lookup_none_keys l n : lookup l n = None <-> ~ In n (keys l).
+Proof.
+  rewrite <- lookup_in_keys. destruct (lookup l n); split; try congruence; try tauto.
+  intros H. exfalso. apply H. discriminate.
+Qed.
+
+Lemma mem_cons n m l : mem_bytes n (m :: l) = bytes_eqb n m || mem_bytes n l.
+Proof. reflexivity. Qed.
+
+Lemma mem_false n l : mem_bytes n l = false <-> ~ In n l.
+Proof.
+  rewrite <- mem_bytes_in. destruct (mem_bytes n l); split; congruence.
+Qed.
+
+(* ====================================================================== *)
+(* one step, seen from one name                                            *)
+(* ====================================================================== *)
+Section STEP.
+Variable c : cfg.
+
+Lemma lookup_set st n r m :
+  lookup (outcomes (set_outcome c st n r)) m
+  = if bytes_eqb m n then Some (mk_outcome c n r) else lookup (outcomes st) m.
+Proof. unfold set_outcome; simpl. apply lookup_put. Qed.
+
+Lemma lookup_fold_set r ns : forall st m,
+  lookup (outcomes (fold_left (fun s n => set_outcome c s n r) ns st)) m
+  = if mem_bytes m ns then Some (mk_outcome c m r) else lookup (outcomes st) m.
+Proof.
+  induction ns as [|n ns IH]; intros st m; simpl fold_left.
+  - reflexivity.
+  - rewrite IH, mem_cons, lookup_set.
+    destruct (mem_bytes m ns); [rewrite orb_true_r; reflexivity|]. rewrite orb_false_r.
+    destruct (bytes_eqb_spec m n) as [->|]; reflexivity.
+Qed.
+
+Definition fill_one (k : errkind) (s : state) (n : name) : state :=
+  match lookup (outcomes s) n with
+  | Some _ => s
+  | None => set_outcome c s n (Fail true k)
+  end.
+
+Lemma lookup_fold_fill k ns : forall st m,
+  lookup (outcomes (fold_left (fill_one k) ns st)) m
+  = match lookup (outcomes st) m with
+    | Some o => Some o
+    | None => if mem_bytes m ns then Some (mk_outcome c m (Fail true k)) else None
+    end.
+Proof.
+  induction ns as [|n ns IH]; intros st m; simpl fold_left.
+  - destruct (lookup (outcomes st) m); reflexivity.
+  - rewrite IH, mem_cons. unfold fill_one.
+    destruct (lookup (outcomes st) n) eqn:En.
+    + destruct (lookup (outcomes st) m) eqn:Em; [reflexivity|].
+      destruct (bytes_eqb_spec m n) as [->|]; [congruence|reflexivity].
+    + rewrite lookup_set. destruct (bytes_eqb_spec m n) as [->|Hmn].
+      * rewrite En. reflexivity.
+      * destruct (lookup (outcomes st) m); reflexivity.
+Qed.
+
+Lemma sideband_fold_set r ns : forall st,
+  sideband (fold_left (fun s n => set_outcome c s n r) ns st) = sideband st.
+Proof. induction ns as [|n ns IH]; intros st; simpl; [reflexivity|]. rewrite IH. reflexivity. Qed.
+
+Lemma sideband_fold_fill k ns : forall st,
+  sideband (fold_left (fill_one k) ns st) = sideband st.
+Proof.
+  induction ns as [|n ns IH]; intros st; simpl; [reflexivity|]. rewrite IH.
+  unfold fill_one. destruct (lookup (outcomes st) n); reflexivity.
+Qed.
+
+Lemma nodup_fold_set r ns : forall st,
+  NoDup (keys (outcomes st)) ->
+  NoDup (keys (outcomes (fold_left (fun s n => set_outcome c s n r) ns st))).
+Proof.
+  induction ns as [|n ns IH]; intros st H; simpl; [exact H|].
+  apply IH. unfold set_outcome; simpl. apply nodup_keys_put. exact H.
+Qed.
+
+Lemma nodup_fold_fill k ns : forall st,
+  NoDup (keys (outcomes st)) -> NoDup (keys (outcomes (fold_left (fill_one k) ns st))).
+Proof.
+  induction ns as [|n ns IH]; intros st H; simpl; [exact H|].
+  apply IH. unfold fill_one. destruct (lookup (outcomes st) n); [exact H|].
+  unfold set_outcome; simpl. apply nodup_keys_put. exact H.
+Qed.
+
+Lemma step_fill st ns k :
+  step c st (OFailRemaining ns k) = fold_left (fill_one k) ns st.
+Proof. reflexivity. Qed.
+
+Lemma run_snoc h o : run c (h ++ [o]) = step c (run c h) o.
+Proof. unfold run. rewrite fold_left_app. reflexivity. Qed.
+
+Lemma on_record_snoc h o n : on_record (h ++ [o]) n = on_record_rev (o :: rev h) n.
+Proof. unfold on_record. rewrite rev_unit. reflexivity. Qed.
+
+(* the map shows, for every name, exactly what the history has on record *)
+Lemma lookup_run h : forall n,
+  lookup (outcomes (run c h)) n = option_map (mk_outcome c n) (on_record h n).
+Proof.
+  induction h as [|o h IH] using rev_ind; intros n.
+  - reflexivity.
+  - rewrite run_snoc, on_record_snoc. fold (on_record h n).
+    destruct o as [m r|m|m ok|ns k|ns k|m]; cbn [on_record_rev].
+    + cbn [step]. rewrite lookup_set. destruct (bytes_eqb_spec n m) as [->|]; [reflexivity|apply IH].
+    + cbn [step]. rewrite lookup_set. destruct (bytes_eqb_spec n m) as [->|]; [reflexivity|apply IH].
+    + cbn [step]. rewrite lookup_set. destruct (bytes_eqb_spec n m) as [->|]; [reflexivity|apply IH].
+    + cbn [step]. rewrite lookup_fold_set. destruct (mem_bytes n ns); [reflexivity|apply IH].
+    + rewrite step_fill, lookup_fold_fill, IH. fold (on_record h n).
+      destruct (on_record h n); simpl; [reflexivity|]. destruct (mem_bytes n ns); reflexivity.
+    + cbn [step]. simpl outcomes. apply IH.
+Qed.
+
+Lemma nodup_run h : NoDup (keys (outcomes (run c h))).
+Proof.
+  induction h as [|o h IH] using rev_ind.
+  - constructor.
+  - rewrite run_snoc. destruct o as [m r|m|m ok|ns k|ns k|m]; cbn [step].
+    + apply nodup_keys_put, IH.
+    + apply nodup_keys_put, IH.
+    + apply nodup_keys_put, IH.
+    + apply nodup_fold_set, IH.
+    + apply (nodup_fold_fill k ns), IH.
+    + exact IH.
+Qed.
+
+Lemma sideband_run h n : In n (sideband (run c h)) <-> has_feedback h n = true.
+Proof.
+  induction h as [|o h IH] using rev_ind.
+  - simpl. split; [intros []|discriminate].
+  - rewrite run_snoc. unfold has_feedback. rewrite existsb_app. fold (has_feedback h n).
+    rewrite orb_true_iff, <- IH. simpl existsb. rewrite orb_false_r.
+    destruct o as [m r|m|m ok|ns k|ns k|m]; cbn [step].
+    + simpl. intuition discriminate.
+    + simpl. intuition discriminate.
+    + simpl. intuition discriminate.
+    + rewrite sideband_fold_set. intuition discriminate.
+    + rewrite (sideband_fold_fill k ns). intuition discriminate.
+    + simpl sideband. destruct (mem_bytes m (sideband (run c h))) eqn:E.
+      * split; [auto|]. intros [H|H]; [exact H|].
+        apply bytes_eqb_eq in H; subst. apply mem_bytes_in. exact E.
+      * rewrite in_app_iff. simpl. split.
+        -- intros [H|[H|[]]]; [auto|]. right. subst. apply bytes_eqb_refl.
+        -- intros [H|H]; [auto|]. right. left. apply bytes_eqb_eq in H. congruence.
+Qed.
+
+End STEP.
+
+(* ====================================================================== *)
+(* what is on record, relationally                                         *)
+(* ====================================================================== *)
+Lemma reports_dec o n : (exists r, reports o n r) \/ ~ reports_on o n.
+Proof.
+  destruct o as [m r|m|m ok|ns k|ns k|m]; simpl.
+  - destruct (bytes_eqb_spec m n) as [->|H]; [left; eauto|right; intros (r' & E & _); congruence].
+  - destruct (bytes_eqb_spec m n) as [->|H]; [left; eauto|right; intros (r' & E & _); congruence].
+  - destruct (bytes_eqb_spec m n) as [->|H]; [left; eauto|right; intros (r' & E & _); congruence].
+  - destruct (mem_bytes n ns) eqn:E.
+    + apply mem_bytes_in in E. left; eauto.
+    + apply mem_false in E. right; intros (r' & H & _); tauto.
+  - right; intros (r' & []).
+  - right; intros (r' & []).
+Qed.
+
+(* a reporting operation decides, whatever came before *)
+Lemma rev_reports o n r rest : reports o n r -> on_record_rev (o :: rest) n = Some r.
+Proof.
+  destruct o as [m r'|m|m ok|ns k|ns k|m]; simpl; try tauto.
+  - intros [-> ->]. rewrite bytes_eqb_refl. reflexivity.
+  - intros [-> ->]. rewrite bytes_eqb_refl. reflexivity.
+  - intros [-> ->]. rewrite bytes_eqb_refl. reflexivity.
+  - intros [H ->]. apply mem_bytes_in in H. rewrite H. reflexivity.
+Qed.
+
+(* a non-reporting operation never replaces what is on record *)
+Lemma rev_keeps o n r rest :
+  ~ reports_on o n -> on_record_rev rest n = Some r -> on_record_rev (o :: rest) n = Some r.
+Proof.
+  intros NR E. destruct o as [m r'|m|m ok|ns k|ns k|m]; simpl.
+  - destruct (bytes_eqb_spec n m) as [->|]; [exfalso; apply NR; exists r'; simpl; auto|exact E].
+  - destruct (bytes_eqb_spec n m) as [->|]; [exfalso; apply NR; eexists; simpl; eauto|exact E].
+  - destruct (bytes_eqb_spec n m) as [->|]; [exfalso; apply NR; eexists; simpl; eauto|exact E].
+  - destruct (mem_bytes n ns) eqn:M; [|exact E].
+    apply mem_bytes_in in M. exfalso; apply NR; eexists; simpl; eauto.
+  - rewrite E. reflexivity.
+  - exact E.
+Qed.
+
+(* an operation that does not touch the name changes nothing *)
+Lemma rev_untouched o n rest : ~ touches o n -> on_record_rev (o :: rest) n = on_record_rev rest n.
+Proof.
+  intros NT. destruct o as [m r'|m|m ok|ns k|ns k|m]; simpl.
+  - destruct (bytes_eqb_spec n m) as [->|]; [exfalso; apply NT; left; exists r'; simpl; auto|reflexivity].
+  - destruct (bytes_eqb_spec n m) as [->|]; [exfalso; apply NT; left; eexists; simpl; eauto|reflexivity].
+  - destruct (bytes_eqb_spec n m) as [->|]; [exfalso; apply NT; left; eexists; simpl; eauto|reflexivity].
+  - destruct (mem_bytes n ns) eqn:M; [|reflexivity].
+    apply mem_bytes_in in M. exfalso; apply NT; left; eexists; simpl; eauto.
+  - destruct (on_record_rev rest n); [reflexivity|].
+    destruct (mem_bytes n ns) eqn:M; [|reflexivity].
+    apply mem_bytes_in in M. exfalso; apply NT; right; eexists; simpl; eauto.
+  - reflexivity.
+Qed.
+
+Lemma on_record_app_keep A B n r :
+  (forall o, In o B -> ~ reports_on o n) -> on_record A n = Some r -> on_record (A ++ B) n = Some r.
+Proof.
+  unfold on_record. rewrite rev_app_distr. intros NR E.
+  assert (NR' : forall o, In o (rev B) -> ~ reports_on o n) by (intros o H; apply NR, in_rev, H).
+  clear NR. induction (rev B) as [|o l IH]; simpl app; [exact E|].
+  apply rev_keeps; [apply NR'; left; reflexivity|]. apply IH. intros o' H; apply NR'; right; exact H.
+Qed.
+
+Lemma on_record_app_skip A B n :
+  (forall o, In o A -> ~ touches o n) -> on_record (A ++ B) n = on_record B n.
+Proof.
+  unfold on_record. rewrite rev_app_distr. intros NT.
+  assert (NT' : forall o, In o (rev A) -> ~ touches o n) by (intros o H; apply NT, in_rev, H).
+  clear NT.
+  assert (E0 : on_record_rev (rev A) n = None).
+  { induction (rev A) as [|o l IH]; [reflexivity|].
+    rewrite rev_untouched by (apply NT'; left; reflexivity).
+    apply IH. intros o' H; apply NT'; right; exact H. }
+  induction (rev B) as [|o l IH]; simpl app; [exact E0|].
+  destruct o as [m r'|m|m ok|ns k|ns k|m]; simpl; rewrite ?IH; reflexivity.
+Qed.
+
+(* the latest report on a case is what is on record *)
+Lemma on_record_last_proof h1 o h2 n r :
+  reports o n r -> (forall o', In o' h2 -> ~ reports_on o' n) ->
+  on_record (h1 ++ o :: h2) n = Some r.
+Proof.
+  intros R NR. change (o :: h2) with ([o] ++ h2). rewrite app_assoc.
+  apply on_record_app_keep; [exact NR|].
+  rewrite on_record_snoc. apply rev_reports, R.
+Qed.
+
+(* failRemaining fills in a case that has nothing on record, and only such a case *)
+Lemma on_record_filled_proof h1 ns k h2 n :
+  (forall o, In o h1 -> ~ touches o n) -> In n ns ->
+  (forall o, In o h2 -> ~ reports_on o n) ->
+  on_record (h1 ++ OFailRemaining ns k :: h2) n = Some (Fail true k).
+Proof.
+  intros NT I NR. rewrite on_record_app_skip by exact NT.
+  change (OFailRemaining ns k :: h2) with ([OFailRemaining ns k] ++ h2).
+  apply on_record_app_keep; [exact NR|].
+  unfold on_record; simpl. apply mem_bytes_in in I. rewrite I. reflexivity.
+Qed.
+
+Lemma rev_some_mono o n rest :
+  on_record_rev rest n <> None -> on_record_rev (o :: rest) n <> None.
+Proof.
+  intros H. destruct (on_record_rev rest n) as [r|] eqn:E; [clear H|congruence].
+  destruct (reports_dec o n) as [(r' & R)|NR].
+  - rewrite (rev_reports _ _ _ _ R). discriminate.
+  - rewrite (rev_keeps _ _ _ _ NR E). discriminate.
+Qed.
+
+Lemma rev_touch_some o n rest : touches o n -> on_record_rev (o :: rest) n <> None.
+Proof.
+  intros [(r & R)|(r & F)].
+  - rewrite (rev_reports _ _ _ _ R). discriminate.
+  - destruct o as [m r'|m|m ok|ns k|ns k|m]; simpl in F; try tauto.
+    destruct F as [I _]. apply mem_bytes_in in I. simpl. rewrite I.
+    destruct (on_record_rev rest n); discriminate.
+Qed.
+
+Lemma rev_none_untouched l n :
+  on_record_rev l n = None -> forall o, In o l -> ~ touches o n.
+Proof.
+  induction l as [|x l IH]; intros E o I; [destruct I|].
+  destruct I as [<-|I].
+  - intros T. apply (rev_touch_some _ _ l) in T. congruence.
+  - apply IH; [|exact I].
+    destruct (on_record_rev l n) eqn:El; [|reflexivity].
+    exfalso. apply (rev_some_mono x n l); [rewrite El; discriminate|exact E].
+Qed.
+
+(* nothing is on record exactly when no operation ever touched the case *)
+Lemma on_record_none_iff_proof h n :
+  on_record h n = None <-> forall o, In o h -> ~ touches o n.
+Proof.
+  split.
+  - intros E o I. apply (rev_none_untouched _ _ E). apply in_rev in I. exact I.
+  - intros NT. rewrite <- (app_nil_r h). rewrite on_record_app_skip by exact NT. reflexivity.
+Qed.
+
+(* ====================================================================== *)
+(* merging the feedback                                                    *)
+(* ====================================================================== *)
+Definition fed (c : cfg) (n : name) (o : option outcome) : outcome :=
+  match o with Some o => add_feedback o | None => mk_outcome c n (Fail false EFeedback) end.
+
+Lemma add_feedback_idem o : add_feedback (add_feedback o) = add_feedback o.
+Proof. destruct o as [[k|] s a b]; reflexivity. Qed.
+
+Lemma lookup_merge_one c outs m n :
+  lookup (merge_one c outs m) n
+  = if bytes_eqb n m then Some (fed c m (lookup outs m)) else lookup outs n.
+Proof.
+  unfold merge_one, fed. destruct (lookup outs m); rewrite lookup_put; reflexivity.
+Qed.
+
+Lemma lookup_merged_gen c sb : forall outs n,
+  lookup (fold_left (merge_one c) sb outs) n
+  = if mem_bytes n sb then Some (fed c n (lookup outs n)) else lookup outs n.
+Proof.
+  induction sb as [|m sb IH]; intros outs n; simpl fold_left.
+  - reflexivity.
+  - rewrite IH, mem_cons, lookup_merge_one.
+    destruct (bytes_eqb_spec n m) as [->|Hnm]; simpl orb.
+    + destruct (mem_bytes m sb); [|reflexivity].
+      f_equal. unfold fed at 1. unfold fed. destruct (lookup outs m).
+      * apply add_feedback_idem.
+      * reflexivity.
+    + reflexivity.
+Qed.
+
+Lemma in_keys_merge_one c outs m n :
+  In n (keys (merge_one c outs m)) <-> n = m \/ In n (keys outs).
+Proof. unfold merge_one. destruct (lookup outs m); apply in_keys_put. Qed.
+
+Lemma in_keys_merged_gen c sb : forall outs n,
+  In n (keys (fold_left (merge_one c) sb outs)) <-> In n sb \/ In n (keys outs).
+Proof.
+  induction sb as [|m sb IH]; intros outs n; simpl fold_left.
+  - simpl. tauto.
+  - rewrite IH, in_keys_merge_one. simpl. intuition.
+Qed.
+
+Lemma nodup_merged_gen c sb : forall outs,
+  NoDup (keys outs) -> NoDup (keys (fold_left (merge_one c) sb outs)).
+Proof.
+  induction sb as [|m sb IH]; intros outs H; simpl fold_left; [exact H|].
+  apply IH. unfold merge_one. destruct (lookup outs m); apply nodup_keys_put, H.
+Qed.
+
+(* ====================================================================== *)
+(* one case: the switch of report() is the truth table                     *)
+(* ====================================================================== *)
+Definition marking_of (kf kfl : bool) : marking :=
+  if kf then KnownFailing else if kfl then KnownFlaky else Unmarked.
+
+Lemma marks_agree_of a b m : marks_agree a b m -> marking_of a b = m.
+Proof. destruct 1; reflexivity. Qed.
+
+(* the outcome the merged map holds for a case with `r` on record and feedback `fb` *)
+Definition final_outcome (c : cfg) (n : name) (r : option res) (fb : bool) : option outcome :=
+  if fb then Some (fed c n (option_map (mk_outcome c n) r)) else option_map (mk_outcome c n) r.
+
+Lemma classify_bucket c n r fb o :
+  final_outcome c n r fb = Some o ->
+  classify o = bucket (marking_of (c_kf c n) (c_kfl c n)) (fate_of r) fb.
+Proof.
+  unfold final_outcome, fed, mk_outcome, add_feedback, classify, marking_of.
+  destruct (c_kf c n), (c_kfl c n); destruct fb; destruct r as [[|s k]|]; simpl;
+    intros E; inversion E; subst; clear E;
+    simpl; try reflexivity; destruct s; destruct k; reflexivity.
+Qed.
+
+Lemma met_bucket m f fb :
+  met m f fb = true <-> bucket m f fb = CPassed \/ bucket m f fb = CExpected.
+Proof.
+  destruct m, f, fb; simpl; split; intros H; try reflexivity; try discriminate; auto;
+    destruct H; discriminate.
+Qed.
+
+Lemma no_outcome_bucket c n r fb m :
+  final_outcome c n r fb = None -> bucket m (fate_of r) fb = CNotRun.
+Proof.
+  unfold final_outcome. destruct fb; [discriminate|]. destruct r; [discriminate|]. reflexivity.
+Qed.
+
+(* ====================================================================== *)
+(* counting                                                                *)
+(* ====================================================================== *)
+Definition cnt (f : name -> cls) (k : cls) (l : list name) : nat :=
+  length (filter (fun n => cls_eqb (f n) k) l).
+
+Lemma cls_eqb_eq a b : cls_eqb a b = true <-> a = b.
+Proof. destruct a, b; simpl; split; congruence. Qed.
+
+Lemma filter_length_perm {A} (p : A -> bool) l l' :
+  Permutation l l' -> length (filter p l) = length (filter p l').
+Proof.
+  induction 1; simpl.
+  - reflexivity.
+  - destruct (p x); simpl; congruence.
+  - destruct (p x), (p y); reflexivity.
+  - congruence.
+Qed.
+
+Lemma cnt_perm f k l l' : Permutation l l' -> cnt f k l = cnt f k l'.
+Proof. apply filter_length_perm. Qed.
+
+Lemma cnt_ext f g k l : (forall n, In n l -> f n = g n) -> cnt f k l = cnt g k l.
+Proof.
+  unfold cnt. intros H. f_equal. apply filter_ext_in. intros a I. rewrite (H a I). reflexivity.
+Qed.
+
+Lemma cnt_app f k l1 l2 : cnt f k (l1 ++ l2) = cnt f k l1 + cnt f k l2.
+Proof. unfold cnt. rewrite filter_app, app_length. reflexivity. Qed.
+
+Lemma cnt_const f k k' l :
+  (forall n, In n l -> f n = k') -> cnt f k l = if cls_eqb k' k then length l else 0.
+Proof.
+  unfold cnt. induction l as [|x l IH]; intros H; simpl.
+  - destruct (cls_eqb k' k); reflexivity.
+  - rewrite (H x) by (left; reflexivity).
+    assert (IH' := IH (fun n I => H n (or_intror I))).
+    destruct (cls_eqb k' k); simpl; rewrite IH'; reflexivity.
+Qed.
+
+Lemma cnt_partition f l :
+  cnt f CPassed l + cnt f CFailed l + cnt f CExpected l + cnt f CNotRun l = length l.
+Proof.
+  unfold cnt. induction l as [|x l IH]; simpl; [reflexivity|].
+  destruct (f x); simpl; lia.
+Qed.
+
+Lemma cnt_zero f k l : cnt f k l = 0 <-> forall n, In n l -> f n <> k.
+Proof.
+  unfold cnt. induction l as [|x l IH]; simpl.
+  - split; [intros _ n []|reflexivity].
+  - destruct (cls_eqb (f x) k) eqn:E; simpl.
+    + apply cls_eqb_eq in E. split; [discriminate|]. intros H. exfalso. apply (H x); auto.
+    + rewrite IH. split.
+      * intros H n [<-|I]; [|apply H, I]. intros E'. apply cls_eqb_eq in E'. congruence.
+      * intros H n I. apply H. right. exact I.
+Qed.
+
+Lemma insert_sorted_perm x l : Permutation (insert_sorted x l) (x :: l).
+Proof.
+  induction l as [|y l IH]; simpl; [reflexivity|].
+  destruct (bytes_leb x y); [reflexivity|].
+  rewrite IH. apply perm_swap.
+Qed.
+
+Lemma sort_bytes_perm l : Permutation (sort_bytes l) l.
+Proof.
+  induction l as [|x l IH]; simpl; [constructor|].
+  rewrite insert_sorted_perm. constructor. exact IH.
+Qed.
+
+Lemma nodup_app_intro {A} (l1 l2 : list A) :
+  NoDup l1 -> NoDup l2 -> (forall x, In x l1 -> ~ In x l2) -> NoDup (l1 ++ l2).
+Proof.
+  induction l1 as [|a l1 IH]; intros H1 H2 D; simpl; [exact H2|].
+  inversion H1; subst. constructor.
+  - rewrite in_app_iff. intros [I|I]; [tauto|]. apply (D a); [left; reflexivity|exact I].
+  - apply IH; auto. intros x I. apply D. right. exact I.
+Qed.
+
+Lemma nodup_filter_intro {A} (p : A -> bool) l : NoDup l -> NoDup (filter p l).
+Proof.
+  induction 1 as [|x l Hx Hl IH]; simpl; [constructor|].
+  destruct (p x); [|exact IH]. constructor; [|exact IH].
+  rewrite filter_In. tauto.
+Qed.
+
+Definition outside (ks : list name) (sel : list name) : list name :=
+  filter (fun n => negb (mem_bytes n ks)) sel.
+
+Lemma split_selection ks sel :
+  NoDup ks -> NoDup sel -> incl ks sel -> Permutation sel (ks ++ outside ks sel).
+Proof.
+  intros Hk Hs Hi. apply NoDup_Permutation; [exact Hs| |].
+  - apply nodup_app_intro; [exact Hk|apply nodup_filter_intro, Hs|].
+    intros x I. unfold outside. rewrite filter_In. intros [_ E].
+    apply mem_bytes_in in I. rewrite I in E. discriminate.
+  - intros x. rewrite in_app_iff. unfold outside. rewrite filter_In. split.
+    + intros I. destruct (mem_bytes x ks) eqn:E.
+      * left. apply mem_bytes_in. exact E.
+      * right. split; [exact I|reflexivity].
+    + intros [I|[I _]]; [apply Hi, I|exact I].
+Qed.
+
+(* ====================================================================== *)
+(* report() after an arbitrary history                                     *)
+(* ====================================================================== *)
+Section REPORT.
+Variable c : cfg.
+Variable mark : name -> marking.
+Hypothesis MARK : forall n, mark n = marking_of (c_kf c n) (c_kfl c n).
+Variable h : list op.
+
+Let st := run c h.
+Let outs := merged c st.
+Let ks := keys outs.
+
+Lemma lookup_outs n :
+  lookup outs n = final_outcome c n (on_record h n) (has_feedback h n).
+Proof.
+  unfold outs, merged. rewrite lookup_merged_gen. unfold st. rewrite lookup_run.
+  unfold final_outcome.
+  destruct (has_feedback h n) eqn:F.
+  - apply (sideband_run c) in F. apply mem_bytes_in in F. rewrite F. reflexivity.
+  - destruct (mem_bytes n (sideband (run c h))) eqn:M; [|reflexivity].
+    apply mem_bytes_in, (sideband_run c) in M. congruence.
+Qed.
+
+Lemma nodup_ks : NoDup ks.
+Proof. unfold ks, outs, merged. apply nodup_merged_gen. apply nodup_run. Qed.
+
+Lemma in_ks n : In n ks <-> on_record h n <> None \/ has_feedback h n = true.
+Proof.
+  unfold ks. rewrite <- lookup_in_keys, lookup_outs. unfold final_outcome.
+  destruct (has_feedback h n); destruct (on_record h n); simpl; split; intros H; auto;
+    try discriminate; try (left; discriminate); try (destruct H; congruence).
+Qed.
+
+Lemma class_in_ks n : In n ks -> class_in outs n = case_bucket mark h n.
+Proof.
+  intros I. unfold class_in. apply lookup_in_keys in I.
+  destruct (lookup outs n) as [o|] eqn:E; [|congruence].
+  rewrite lookup_outs in E. unfold case_bucket, case_fate.
+  rewrite MARK. eapply classify_bucket. exact E.
+Qed.
+
+Lemma class_outside n : ~ In n ks -> case_bucket mark h n = CNotRun.
+Proof.
+  intros NI. unfold ks in NI. apply lookup_none_keys in NI. rewrite lookup_outs in NI.
+  unfold case_bucket, case_fate. eapply no_outcome_bucket. exact NI.
+Qed.
+
+Lemma touches_mentioned o n : touches o n -> In n (op_names o).
+Proof.
+  intros [(r & R)|(r & F)]; destruct o as [m r'|m|m ok|ns k|ns k|m]; simpl in *; try tauto;
+    try (destruct R as [-> _]; auto); destruct F; auto.
+Qed.
+
+Lemma ks_mentioned n : In n ks -> In n (mentioned h).
+Proof.
+  rewrite in_ks. intros [R|F].
+  - destruct (on_record h n) eqn:E; [|congruence].
+    assert (X : ~ (forall o, In o h -> ~ touches o n)).
+    { intros NT. apply on_record_none_iff_proof in NT. congruence. }
+    unfold mentioned. rewrite in_flat_map.
+    (* some operation touches n *)
+    assert (Y : exists o, In o h /\ touches o n).
+    { clear -X. induction h as [|o l IH].
+      - exfalso. apply X. intros o [].
+      - destruct (reports_dec o n) as [(r & R)|NR].
+        + exists o. split; [left; reflexivity|left; exists r; exact R].
+        + destruct o as [m r'|m|m ok|ns k|ns k|m];
+            try (destruct IH as (o' & I & T);
+                 [intros NT; apply X; intros o' [<-|I] T;
+                  [destruct T as [T|(r & [])]; tauto|exact (NT o' I T)]
+                 |exists o'; split; [right; exact I|exact T]]).
+          destruct (mem_bytes n ns) eqn:M.
+          * exists (OFailRemaining ns k). split; [left; reflexivity|].
+            right. exists (Fail true k). simpl. split; [apply mem_bytes_in, M|reflexivity].
+          * destruct IH as (o' & I & T).
+            -- intros NT; apply X; intros o' [<-|I] T; [|exact (NT o' I T)].
+               destruct T as [T|(r & [I _])]; [tauto|].
+               apply mem_bytes_in in I. congruence.
+            -- exists o'; split; [right; exact I|exact T]. }
+    destruct Y as (o & I & T). exists o. split; [exact I|apply touches_mentioned, T].
+  - unfold has_feedback in F. apply existsb_exists in F. destruct F as (o & I & E).
+    unfold mentioned. rewrite in_flat_map. exists o. split; [exact I|].
+    destruct o; try discriminate. apply bytes_eqb_eq in E. subst. left. reflexivity.
+Qed.
+
+Let names := sort_bytes ks.
+
+Lemma report_unfold :
+  report c st =
+  mkR ((cnt (class_in outs) CFailed names =? 0)
+         && ((c_total c - length names) + cnt (class_in outs) CNotRun names =? 0))
+      (length outs) (cnt (class_in outs) CPassed names) (cnt (class_in outs) CFailed names)
+      ((c_total c - length names) + cnt (class_in outs) CNotRun names)
+      (cnt (class_in outs) CExpected names)
+      (names_of outs CFailed names) (names_of outs CExpected names).
+Proof. reflexivity. Qed.
+
+Variable sel : list name.
+Hypothesis SEL : selection c h sel.
+
+Lemma ks_incl : incl ks sel.
+Proof. destruct SEL as (_ & _ & I). intros n H. apply I, ks_mentioned, H. Qed.
+
+Lemma cnt_names k : cnt (class_in outs) k names = cnt (case_bucket mark h) k ks.
+Proof.
+  unfold names. rewrite (cnt_perm _ _ _ _ (sort_bytes_perm ks)).
+  apply cnt_ext. intros n I. apply class_in_ks, I.
+Qed.
+
+Lemma cnt_sel k :
+  cnt (case_bucket mark h) k sel
+  = cnt (case_bucket mark h) k ks + (if cls_eqb CNotRun k then length (outside ks sel) else 0).
+Proof.
+  destruct SEL as (ND & _ & _).
+  rewrite (cnt_perm _ _ _ _ (split_selection ks sel nodup_ks ND ks_incl)), cnt_app.
+  f_equal. apply cnt_const. intros n I. apply class_outside.
+  unfold outside in I. apply filter_In in I. destruct I as [_ E].
+  apply negb_true_iff, mem_false in E. exact E.
+Qed.
+
+Lemma length_sel : length sel = length ks + length (outside ks sel).
+Proof.
+  destruct SEL as (ND & _ & _).
+  rewrite (Permutation_length (split_selection ks sel nodup_ks ND ks_incl)), app_length. reflexivity.
+Qed.
+
+Lemma length_names : length names = length ks.
+Proof. unfold names. apply Permutation_length, sort_bytes_perm. Qed.
+
+(* every number printed is the number of selected cases in that bucket *)
+Lemma report_counts_proof :
+  let r := report c st in
+  r_passed r = count_bucket mark h CPassed sel /\
+  r_failed r = count_bucket mark h CFailed sel /\
+  r_expected r = count_bucket mark h CExpected sel /\
+  r_notrun r = count_bucket mark h CNotRun sel.
+Proof.
+  rewrite report_unfold. cbn [r_passed r_failed r_expected r_notrun].
+  unfold count_bucket. fold (cnt (case_bucket mark h) CPassed sel).
+  fold (cnt (case_bucket mark h) CFailed sel). fold (cnt (case_bucket mark h) CExpected sel).
+  fold (cnt (case_bucket mark h) CNotRun sel).
+  rewrite !cnt_sel, !cnt_names. simpl cls_eqb. cbv iota.
+  destruct SEL as (_ & T & _). rewrite T, length_sel, length_names.
+  repeat split; lia.
+Qed.
+
+Lemma report_ok_proof :
+  r_ok (report c st) = true <-> success mark h sel.
+Proof.
+  pose proof report_counts_proof as (_ & HF & _ & HN).
+  rewrite report_unfold in *. cbn [r_ok r_failed r_notrun] in *.
+  rewrite andb_true_iff, !Nat.eqb_eq, HF, HN. unfold count_bucket.
+  fold (cnt (case_bucket mark h) CFailed sel). fold (cnt (case_bucket mark h) CNotRun sel).
+  rewrite !cnt_zero. unfold success, case_met. split.
+  - intros [A B] n I. apply met_bucket. fold (case_bucket mark h n).
+    specialize (A n I). specialize (B n I). destruct (case_bucket mark h n); auto; congruence.
+  - intros S. split; intros n I E; specialize (S n I); apply met_bucket in S;
+      fold (case_bucket mark h n) in S; rewrite E in S; destruct S; discriminate.
+Qed.
+
+Lemma names_of_in k n :
+  k <> CNotRun ->
+  (In n (names_of outs k names) <-> In n sel /\ case_bucket mark h n = k).
+Proof.
+  intros NK. unfold names_of. rewrite filter_In. unfold names. rewrite sort_bytes_in, cls_eqb_eq. split.
+  - intros [I E]. split; [apply ks_incl, I|]. rewrite <- class_in_ks by exact I. exact E.
+  - intros [I E]. destruct (in_dec (list_eq_dec N.eq_dec) n ks) as [K|K].
+    + split; [exact K|]. rewrite class_in_ks by exact K. exact E.
+    + exfalso. rewrite (class_outside n K) in E. congruence.
+Qed.
+
+Lemma names_of_nodup k : NoDup (names_of outs k names).
+Proof.
+  unfold names_of. apply nodup_filter_intro. unfold names.
+  eapply Permutation_NoDup; [apply Permutation_sym, sort_bytes_perm|apply nodup_ks].
+Qed.
+
+End REPORT.
